@@ -23,6 +23,7 @@ type shape3 struct {
 	validate bool                         // hit parameters come from the polynomial root finder: residuals only validate
 	approx   bool                         // documented approximate collider (SolidCollider): contract only
 	proj2    model2d.Collider             // profile colliders: the 2-D outline collider
+	axis     v3                           // capsule, cylinder and their images under a transform: direction of the axis; zero otherwise (a ray along the axis of a cone passes through the apex: not in general position)
 }
 
 // degenerateProjection: the projection of the ray to the xy-plane is not in general position with respect to the
@@ -157,11 +158,25 @@ func segClosest(a, b, p v3) v3 {
 	return a.Add(v.Scale(t))
 }
 
+// axisOf: the direction of the axis of a solid of revolution exactly as the library derives it from the two end
+// points, (b - a).Normalize() - a ray with this direction (times any factor) runs along the axis as exactly as floating
+// point permits: for an axis-aligned solid the components orthogonal to the axis are exactly zero.
+func axisOf(a, b v3) v3 { return b.Sub(a).Normalize() }
+
+// alongAxis: a direction exactly parallel to the axis of sh (either sense, non-unit length).
+func alongAxis(c *hlib.Ctx, sh *shape3) v3 {
+	k := nonUnitScale(c)
+	if c.Rng.Intn(2) == 0 {
+		k = -k
+	}
+	return sh.axis.Scale(k)
+}
+
 func mkCapsule(c *hlib.Ctx) *shape3 {
 	p1 := randCenter3(c)
 	p2 := p1.Add(randAxis3(c).Scale(randPos(c, 0.2, 3)))
 	s := &model3d.Capsule{P1: p1, P2: p2, Radius: randPos(c, 0.2, 2)}
-	return &shape3{kind: "capsule", name: fmt.Sprintf("Capsule%+v", *s), col: s, scale: s.Radius + p1.Dist(p2),
+	return &shape3{kind: "capsule", name: fmt.Sprintf("Capsule%+v", *s), col: s, scale: s.Radius + p1.Dist(p2), axis: axisOf(p1, p2),
 		resid: func(p v3) float64 { return p.Dist(segClosest(p1, p2, p)) - s.Radius },
 		normalOK: func(p, n v3) (bool, string) {
 			return dirOK(n, p.Sub(segClosest(p1, p2, p)).Normalize())
@@ -185,7 +200,7 @@ func mkCylinder(c *hlib.Ctx) *shape3 {
 	R := s.Radius
 	sc := R + h
 	tol := 1e-6 * sc
-	return &shape3{kind: "cylinder", name: fmt.Sprintf("Cylinder%+v", *s), col: s, scale: sc,
+	return &shape3{kind: "cylinder", name: fmt.Sprintf("Cylinder%+v", *s), col: s, scale: sc, axis: axisOf(p1, p2),
 		resid: func(p v3) float64 {
 			z, rad := axial(p1, u, p)
 			rho := rad.Norm()
@@ -573,7 +588,7 @@ func mkTransformed(c *hlib.Ctx) *shape3 {
 	f := x.t.ApplyDistance(1)
 	lin := func(t model3d.Transform, v v3) v3 { return t.Apply(v).Sub(t.Apply(v3{})) }
 	sh := &shape3{kind: "transformed", name: "Transform{" + x.name + "," + inner.name + "}", col: col,
-		scale: inner.scale * f, validate: inner.validate,
+		scale: inner.scale * f, validate: inner.validate, axis: lin(x.t, inner.axis),
 		resid: func(p v3) float64 { return inner.resid(inv.Apply(p)) * f }}
 	if inner.normalOK != nil {
 		sh.normalOK = func(p, n v3) (bool, string) {
